@@ -459,7 +459,7 @@ Qed.
 Lemma matches_absent : forall header, ~ matches [] header.
 Proof.
   intros header [Hne [H|[H|[H _]]]]; [congruence | | exact (H eq_refl)].
-  remember (Tag []) as i eqn:Ei. revert Ei.
+  clear Hne. remember (Tag []) as i eqn:Ei. revert Ei.
   induction H as [| seps t rest Hs Ht | seps t rest i Hs Ht Ho IH]; intro Ei.
   - discriminate.
   - inversion Ei; subst. exact (entity_tag_nonempty _ Ht eq_refl).
@@ -614,16 +614,6 @@ Proof.
     destruct (etag_match etag im) as [[|]|] eqn:M; [| |congruence].
     + apply etag_match_spec in M. right. apply Hinm. right. assumption.
     + apply etag_match_false in M. left. tauto.
-Qed.
-
-Lemma cp_spec_functional : forall m e im inm r1 r2,
-  cp_spec m e im inm r1 -> cp_spec m e im inm r2 -> r1 = r2.
-Proof.
-  unfold cp_spec. intros m e im inm r1 r2 H1 H2.
-  destruct H1 as [(A1 & B1 & C1)|[(A1 & B1 & C1 & D1)|(A1 & B1 & C1)]];
-  destruct H2 as [(A2 & B2 & C2)|[(A2 & B2 & C2 & D2)|(A2 & B2 & C2)]];
-  subst; try reflexivity; try tauto; try (destruct A1; tauto); try (destruct A2; tauto);
-  try (destruct B1; tauto); try (destruct B2; tauto).
 Qed.
 
 Theorem cp_never_out_of_fuel : forall m e im inm,
